@@ -114,16 +114,19 @@ Lemma step_join_other_multi s b n chans : Inv s b -> feq n (s_me s) = false ->
 Proof.
   intros I Hnm. cbn [step]. destruct (idict_get n (s_users s)) as [u|] eqn:En; [|exact I]. rewrite Hnm.
   pose proof (inv_wf s b I) as W. destruct (wf_users s W n u En) as [Hk Hgu].
-  destruct (fold_left (join_other n) chans (s, [])) as [s' vis] eqn:Ef.
+  set (n' := su_nick u).
+  assert (En' : idict_get n' (s_users s) = Some u) by (unfold n'; rewrite <- (idict_get_feq n (su_nick u) _ Hk); exact En).
+  assert (Hnm' : feq n' (s_me s) = false) by (unfold n'; rewrite <- (feq_trans_l n (su_nick u) (s_me s) Hk); exact Hnm).
+  destruct (fold_left (join_other n') chans (s, [])) as [s' vis] eqn:Ef.
   destruct vis as [|v0 vr].
-  - rewrite (fa_nil nick0 prefix0). pose proof (join_loop n u chans s [] b En Hnm) as P. rewrite Ef in P.
+  - rewrite (fa_nil nick0 prefix0). pose proof (join_loop n' u chans s [] b En' Hnm') as P. rewrite Ef in P.
     destruct P as [vn [Hv [_ Himp]]]. cbn [app] in Hv. subst vn. apply Himp; [exact I|left; reflexivity].
   - rewrite (fa_one nick0 prefix0) by reflexivity.
     destruct (feed_user u str_JOIN [join [COMMA] (v0 :: vr)] b st_doJoin Hgu (Inv_valid_nick s b I)) as [b' [Hcore Hfeed]];
       try reflexivity; try (intros; discriminate); try exact addMsg_JOIN.
-    rewrite Hfeed. destruct (Inv_actor s b' n u (Inv_core s b b' Hcore I) En) as [I1 Hent].
+    rewrite Hfeed. destruct (Inv_actor s b' n' u (Inv_core s b b' Hcore I) En') as [I1 Hent].
     set (b1 := n2h_set (su_nick u) (hostmask u) b') in *.
-    pose proof (join_loop n u chans s [] b1 En Hnm) as P. rewrite Ef in P.
+    pose proof (join_loop n' u chans s [] b1 En' Hnm') as P. rewrite Ef in P.
     destruct P as [vn [Hv [Hf Himp]]]. cbn [app] in Hv. subst vn.
     rewrite (st_doJoin_fold (Msg (hostmask u) str_JOIN [join [COMMA] (v0 :: vr)]) b1 (join [COMMA] (v0 :: vr)) [] eq_refl).
     rewrite (split_char_join COMMA (v0 :: vr)); [|discriminate|exact Hf].
